@@ -448,11 +448,11 @@ func (r *Router) RunHandlers(ctx context.Context) error {
 
 		h.messagesCh = messages
 		h.started = true
-		close(h.startedCh)
-		verifhook.At("router.runhandlers.started", h.name)
-
+		// stopFn and stopped have to be set before Started() is closed: Stop() and Stopped() may be called right after it
 		h.stopFn = cancel
 		h.stopped = make(chan struct{})
+		close(h.startedCh)
+		verifhook.At("router.runhandlers.started", h.name)
 
 		go func() {
 			defer cancel()
